@@ -663,4 +663,22 @@ example : resolveFields [{ size := 1 }, { size := 2, offset := some 4 }, { size 
 example : sortGathered [none, some 3, none, some 0] = .ok [some 3, some 0, some 2, some 1] ∧
     sortGathered [some 5, none] = .ok [some 1, none, none, none, none, some 0] := by decide
 
+/-- Two banks (numbers 1 and 2) and a 4x8 memory window (number 3) on one bus: a read of bank 2 returns bank 2's
+    register although bank 1 holds non-zero data; an access to an unmapped page reads 0; the memory reads back. -/
+def demoArray : ArrayCfg :=
+  { banks := [{ bw := 8, ord := .big, pbits := 3, address := 1, regs := [{ kind := .storage, size := 8, reset := 0x11 }] },
+              { bw := 8, ord := .big, pbits := 3, address := 2, regs := [{ kind := .storage, size := 8, reset := 0x22 }] }],
+    srams := [{ cfg := { bw := 8, pbits := 3, address := 3, width := 8, depth := 4, readOnly := false, init := [] },
+                page := none }] }
+
+def abus (a : Nat) (we : Bool) (d : Nat) : ArrayIn :=
+  { masters := [{ adr := a, re := !we, we := we, datW := d }], dev := [] }
+
+example :
+    let m := bankArray demoArray
+    (m.out (m.run [abus 16 false 0]) (abus 0 false 0)).datR = 0x22 ∧
+    (m.out (m.run [abus 8 false 0]) (abus 0 false 0)).datR = 0x11 ∧
+    (m.out (m.run [abus 40 false 0]) (abus 0 false 0)).datR = 0 ∧
+    (m.out (m.run [abus 26 true 0x5A, abus 16 false 0, abus 26 false 0]) (abus 0 false 0)).datR = 0x5A := by decide
+
 end Litex.C12
